@@ -1,5 +1,266 @@
 package main
 
-// placeholder until the evaluator model lands: chain enumeration is added in c03chain.go
-func c03Chains(r *Run)                   {}
-func c03ReplayChain(r *Run, replay *Case) {}
+// C03, stream 2 — chains. Every chain member and every neighbour is a marker element; the parsed output must list exactly the
+// expected markers in order. Chain shapes <= N members x all truth assignments x placements x separators.
+
+import (
+	"fmt"
+	"regexp"
+	"strings"
+)
+
+var c03MarkRe = regexp.MustCompile(`\[([A-Za-z0-9-]+)\]`)
+
+type c03Chain struct {
+	kinds []string // "if", "elseif", "else"
+	truth []bool   // per member (ignored for else)
+}
+
+func (c c03Chain) markup(sep string, tag string, prefix string) string {
+	var sb strings.Builder
+	for i, k := range c.kinds {
+		if i > 0 {
+			sb.WriteString(sep)
+		}
+		cond := fmt.Sprintf("%sc%d", prefix, i)
+		switch k {
+		case "if":
+			fmt.Fprintf(&sb, `<%s v-if="%s">[%sm%d]</%s>`, tag, cond, prefix, i, tag)
+		case "elseif":
+			fmt.Fprintf(&sb, `<%s v-else-if="%s">[%sm%d]</%s>`, tag, cond, prefix, i, tag)
+		case "else":
+			fmt.Fprintf(&sb, `<%s v-else>[%sm%d]</%s>`, tag, prefix, i, tag)
+		}
+	}
+	return sb.String()
+}
+
+func (c c03Chain) data(prefix string, d map[string]any) {
+	for i := range c.kinds {
+		if i < len(c.truth) {
+			d[fmt.Sprintf("%sc%d", prefix, i)] = c.truth[i]
+		}
+	}
+}
+
+// expected: first member whose condition is truthy (else always), members after a complete chain that are orphans are dropped
+func (c c03Chain) expect(prefix string) []string {
+	// the chain starts at the first "if"; members before it (orphans) are dropped; after an "else" the chain ends: later members are orphans
+	started := false
+	done := false
+	var out []string
+	for i, k := range c.kinds {
+		if k == "if" {
+			started, done = true, false
+		}
+		if !started {
+			continue
+		}
+		if done {
+			if k == "if" {
+				done = false
+			} else {
+				continue
+			}
+		}
+		t := k == "else" || c.truth[i]
+		if k == "if" || !done {
+			if t {
+				out = append(out, fmt.Sprintf("%sm%d", prefix, i))
+				done = true
+			}
+		}
+		if k == "else" {
+			started = false
+		}
+	}
+	return out
+}
+
+func c03ChainShapes(maxLen int) []c03Chain {
+	var shapes [][]string
+	var rec func(prefix []string, n int)
+	rec = func(prefix []string, n int) {
+		if len(prefix) > 0 {
+			shapes = append(shapes, append([]string{}, prefix...))
+		}
+		if n == 0 {
+			return
+		}
+		for _, k := range []string{"if", "elseif", "else"} {
+			rec(append(prefix, k), n-1)
+		}
+	}
+	rec(nil, maxLen)
+	var out []c03Chain
+	for _, s := range shapes {
+		n := len(s)
+		for mask := 0; mask < 1<<n; mask++ {
+			skip := false
+			truth := make([]bool, n)
+			for i := range s {
+				truth[i] = mask&(1<<i) != 0
+				if s[i] == "else" && truth[i] {
+					skip = true // else has no condition: one assignment only
+				}
+			}
+			if !skip {
+				out = append(out, c03Chain{s, truth})
+			}
+		}
+	}
+	return out
+}
+
+type c03Placement struct {
+	name string
+	wrap func(chain string) string
+	rep  int // how many times the chain is instantiated
+}
+
+var c03Placements = []c03Placement{
+	{"top", func(c string) string { return "<b>[pre]</b>" + c + "<b>[post]</b>" }, 1},
+	{"nested", func(c string) string { return "<div><b>[pre]</b>" + c + "<b>[post]</b></div>" }, 1},
+	{"in-vfor", func(c string) string { return `<div v-for="q in two"><b>[pre]</b>` + c + `<b>[post]</b></div>` }, 2},
+	{"in-vif-branch", func(c string) string { return `<div v-if="yes"><b>[pre]</b>` + c + `<b>[post]</b></div><div v-else>[never]</div>` }, 1},
+	{"in-template", func(c string) string { return `<template><b>[pre]</b>` + c + `<b>[post]</b></template>` }, 1},
+	{"no-neighbours", func(c string) string { return c }, 1},
+}
+
+var c03Seps = []struct{ name, s string }{{"none", ""}, {"ws", "\n  "}, {"comment", "<!-- c -->"}, {"text", " txt "}}
+
+func c03ChainCase(ch c03Chain, pl c03Placement, sep string, sepName string, tag string) *Case {
+	tpl := pl.wrap(ch.markup(sep, tag, ""))
+	d := map[string]any{"two": []any{1, 2}, "yes": true}
+	ch.data("", d)
+	res := renderPage(map[string]string{"p.vuego": tpl}, "p.vuego", d)
+	c := &Case{Name: fmt.Sprintf("chain %v %v in %s sep %s tag %s", ch.kinds, ch.truth, pl.name, sepName, tag),
+		Input: map[string]any{"stream": "chain", "kinds": ch.kinds, "truth": ch.truth, "placement": pl.name, "sep": sepName, "tag": tag, "tpl": tpl},
+		Impl:  res.canon(), Oracle: &Verdict{OK: true}, Tags: []string{"stream:chain", "placement:" + pl.name, "sep:" + sepName, fmt.Sprintf("len:%d", len(ch.kinds))}}
+	c.Key = c.Name
+	if res.Err != "" || res.Panic != "" || res.Timeout {
+		c.Oracle = &Verdict{OK: false, Class: "chain-render-failed:" + pl.name, Detail: fmt.Sprintf("%+v", res)}
+		return c
+	}
+	var want []string
+	inner := ch.expect("")
+	for i := 0; i < pl.rep; i++ {
+		if pl.name != "no-neighbours" {
+			want = append(want, "pre")
+		}
+		want = append(want, inner...)
+		if pl.name != "no-neighbours" {
+			want = append(want, "post")
+		}
+	}
+	var got []string
+	for _, m := range c03MarkRe.FindAllStringSubmatch(res.Out, -1) {
+		got = append(got, m[1])
+	}
+	// a text separator between members is ordinary content only when it is not swallowed by the chain: see DESIGN B.2 (Q8) — the
+	// statement says "siblings before and after the chain are rendered unchanged"; text between members is part of the chain's extent
+	if strings.Join(got, ",") != strings.Join(want, ",") {
+		c.Oracle = &Verdict{OK: false, Class: fmt.Sprintf("chain-markers:%s:%s", pl.name, sepName), Detail: fmt.Sprintf("markers %v, expected %v; template %q; output %q", got, want, tpl, res.Out)}
+	}
+	return c
+}
+
+func c03Chains(r *Run) {
+	maxLen := 3
+	if r.Thorough() {
+		maxLen = 4
+	}
+	chains := c03ChainShapes(maxLen)
+	for _, ch := range chains {
+		for _, pl := range c03Placements {
+			for _, sp := range c03Seps {
+				if !r.Thorough() && len(ch.kinds) == 3 && pl.name != "top" && sp.name != "ws" {
+					continue
+				}
+				r.Add(c03ChainCase(ch, pl, sp.s, sp.name, "p"))
+			}
+		}
+		r.Add(c03ChainCase(ch, c03Placements[0], "", "none", "template"))
+	}
+	// adjacent chains
+	for _, a := range c03ChainShapes(2) {
+		for _, b := range c03ChainShapes(2) {
+			if b.kinds[0] != "if" {
+				continue
+			}
+			tpl := "<b>[pre]</b>" + a.markup("", "p", "a") + b.markup("", "p", "b") + "<b>[post]</b>"
+			d := map[string]any{}
+			a.data("a", d)
+			b.data("b", d)
+			res := renderPage(map[string]string{"p.vuego": tpl}, "p.vuego", d)
+			c := &Case{Name: fmt.Sprintf("adjacent %v%v + %v%v", a.kinds, a.truth, b.kinds, b.truth), Input: map[string]any{"stream": "adjacent", "tpl": tpl, "data": toVal(d)}, Impl: res.canon(), Oracle: &Verdict{OK: true}, Tags: []string{"stream:chain", "placement:adjacent"}}
+			c.Key = c.Name
+			// a's trailing orphans continue into b only if b starts with "if" (it does): expectation = concatenation, except that a's
+			// chain may be open at its end and b's leading if starts a new chain
+			want := append([]string{"pre"}, a.expect("a")...)
+			want = append(want, b.expect("b")...)
+			want = append(want, "post")
+			var got []string
+			for _, m := range c03MarkRe.FindAllStringSubmatch(res.Out, -1) {
+				got = append(got, m[1])
+			}
+			if strings.Join(got, ",") != strings.Join(want, ",") {
+				c.Oracle = &Verdict{OK: false, Class: "chain-markers:adjacent", Detail: fmt.Sprintf("markers %v, expected %v; template %q", got, want, tpl)}
+			}
+			r.Add(c)
+		}
+	}
+	// uniform truthiness across the five consumers, for every value kind
+	for _, v := range c03Values() {
+		r.Add(c03UniformCase(v))
+	}
+}
+
+var c03ConsumerRe = regexp.MustCompile(`\[(if|elseif|show|attr|class)\]`)
+
+func c03UniformCase(v any) *Case {
+	tpl := `<p v-if="x">[if]</p>` + `<i v-if="no">n</i><p v-else-if="x">[elseif]</p>` + `<q v-show="x">S</q>` + `<u :data-a="x">A</u>` + `<s :class="{on: x}">C</s>`
+	res := renderPage(map[string]string{"p.vuego": tpl}, "p.vuego", map[string]any{"x": v, "no": false})
+	c := &Case{Name: fmt.Sprintf("uniform truthiness of %T(%v)", v, v), Input: map[string]any{"stream": "uniform", "x": toVal(v)}, Impl: res.canon(), Oracle: &Verdict{OK: true}, Tags: []string{"stream:uniform"}}
+	c.Key = c.Name
+	if res.Err != "" || res.Panic != "" || res.Timeout {
+		c.Oracle = &Verdict{OK: false, Class: fmt.Sprintf("uniform-render-failed:%T", v), Detail: fmt.Sprintf("%+v", res)}
+		return c
+	}
+	out := res.Out
+	seen := map[string]bool{
+		"v-if":      strings.Contains(out, "[if]"),
+		"v-else-if": strings.Contains(out, "[elseif]"),
+		"v-show":    !strings.Contains(out, "display:none"),
+		"bound":     strings.Contains(out, "data-a="),
+		"class-obj": strings.Contains(out, `class="on"`),
+	}
+	ref := seen["v-if"]
+	for k, t := range seen {
+		if t != ref {
+			c.Oracle = &Verdict{OK: false, Class: fmt.Sprintf("truthiness-not-uniform:%s:%T", k, v), Detail: fmt.Sprintf("%T(%v): v-if says %v but %s says %v; output %q", v, v, ref, k, t, out)}
+		}
+	}
+	return c
+}
+
+func c03ReplayChain(r *Run, replay *Case) {
+	switch replay.Input["stream"] {
+	case "chain":
+		var kinds []string
+		var truth []bool
+		remarshal(replay.Input["kinds"], &kinds)
+		remarshal(replay.Input["truth"], &truth)
+		for _, pl := range c03Placements {
+			if pl.name == replay.Input["placement"] {
+				for _, sp := range c03Seps {
+					if sp.name == replay.Input["sep"] {
+						r.Add(c03ChainCase(c03Chain{kinds, truth}, pl, sp.s, sp.name, replay.Input["tag"].(string)))
+					}
+				}
+			}
+		}
+	case "uniform":
+		r.Add(c03UniformCase(fromVal(replay.Input["x"].(map[string]any))))
+	}
+}
